@@ -395,7 +395,10 @@ func drive(d *mon.Driver, replay string) int {
 
 	opts := mon.PoolOpts{
 		BatchSize: 60,
-		Env:       []string{envCanary + "=" + realEnvVal, "TMPDIR=rtmp"},
+		Env: []string{envCanary + "=" + realEnvVal, "TMPDIR=rtmp",
+			// the real process's XDG locations carry the real token: no script OS may fall back to them
+			"XDG_CONFIG_HOME=/" + realTok + "_xdgconfig", "XDG_CACHE_HOME=/" + realTok + "_xdgcache",
+			"XDG_DATA_HOME=/" + realTok + "_xdgdata", "XDG_STATE_HOME=/" + realTok + "_xdgstate"},
 		Wrap: func(dir string) []string {
 			return []string{"strace", "-f", "-qq", "-e", "trace=%file,chdir,execve", "-s", "256", "-o", filepath.Join(dir, "strace.txt")}
 		},
